@@ -628,6 +628,12 @@ def rand_udp_program(rng):
             s = rng.choice(["s1", "s2", "r1"])
             if isopen[s]:
                 ops.append({"t": t, "op": "cancel", "s": s})
+        else:
+            # a new receive of another style supersedes the outstanding one
+            s = rng.choice(["r1", "r2", "r3", "s1"])
+            if s in bound and isopen[s]:
+                ops.append({"t": t, "op": "recv", "s": s, "style": rng.choice(["recv", "recv_from", "wait"]),
+                            "bufs": [rng.choice([1, 20, 2000])], "auto": rng.random() < 0.7})
     return {"topo": topo, "ops": ops}
 
 
@@ -898,6 +904,21 @@ def rand_tcp_program(rng):
                 ctl.append({"conn": i, "dir": rng.choice(["c2a", "a2c"]), "seq": rng.randint(0, 6),
                             "nth": rng.choice([1, 1, 1, 2]), "drop": rng.random() < 0.7,
                             "extra": rng.choice([1000, 50000, 300000])})
+    if rng.random() < 0.15 and conns and conns[0]["target"][1] != 8099:
+        # the first client socket object is closed in mid-transfer and reused for a second connection,
+        # accepted into the same accepted-socket object
+        c0 = conns[0]
+        t_close = rng.choice([3000, 40000, 200000, 700000])
+        c0["close_at"] = t_close
+        c0["close"] = "client"
+        c2 = json.loads(json.dumps(c0))
+        c2["id"] = len(conns) + 1
+        del c2["close_at"]
+        c2["connect_at"] = t_close + rng.choice([1, 50, 5000, 100000])
+        c2["accept_at"] = t_close + rng.choice([0, 10, 20000])
+        c2["cport"] = 0 if c0["cport"] == 0 else c0["cport"] + 50
+        c2["close"] = rng.choice(["none", "client"])
+        conns.append(c2)
     return {"topo": topo, "acceptors": acceptors, "conns": conns, "ctl": ctl}
 
 
@@ -1187,6 +1208,11 @@ def fault_base_scenarios():
               "conns": [conn(1, 3, 2000, 500, accept_at=40000, style="wait"), conn(2, 2, 100, 0, target=8099, caddr="A2")]}, ["c1", "l1", "c2"]))
     S.append(("S7-two-connections", {"topo": topo(False), "acceptors": acc, "ctl": [],
               "conns": [conn(1, 1, 6000, 2000), conn(2, 2, 5000, 1000, caddr="A2", connect_at=9, close="acceptor", style="wait")]}, ["c1", "a1", "l1"]))
+    c1 = conn(1, 1, 9000, 1000)
+    c1["close_at"] = 30000
+    c2 = conn(2, 2, 4000, 500, accept_at=30010, connect_at=30500)
+    c2["client"] = "c1"; c2["into"] = "a1"; c2["cport"] = 4051
+    S.append(("S8-reuse", {"topo": topo(False), "acceptors": acc, "ctl": [], "conns": [c1, c2]}, ["c1", "a1"]))
     return S
 
 
@@ -1208,6 +1234,12 @@ def udp_fault_base(rng):
             ops.append({"t": t + 1, "op": "waitw", "s": "s2"})
         if k == 6:
             ops.append({"t": t + 2, "op": "waitw", "s": "r1"})
+        if k == 7:
+            # receive styles change on the same socket (each supersedes the outstanding one)
+            ops.append({"t": t + 1, "op": "recv", "s": "r2", "style": "recv_from", "bufs": [300], "auto": True})
+            ops.append({"t": t + 1, "op": "recv", "s": "r1", "style": "wait", "bufs": [64], "auto": True})
+        if k == 11:
+            ops.append({"t": t + 1, "op": "recv", "s": "r1", "style": "recv", "bufs": [64], "auto": True})
         if k == 9:
             # a burst that fills more than half of s2's send buffer, then a wait-for-writable that really waits
             ops.append({"t": t + 3, "op": "send", "s": "s2", "dst": ["B1", 7000], "bufs": [1400]})
@@ -1254,7 +1286,13 @@ def fault_enum(ctx, owner):
         with open(f, "w") as fh:
             fh.write(json.dumps(prog) + "\n")
         res, total = vlib.replay(ctx, "record-" + proto, f, nproc=1)
-        K = res[0].get("boundaries", 0) if res and res[0].get("ok") else 0
+        if res and not res[0].get("ok"):
+            # the unfaulted base run itself crashes / livelocks: that is a violation, not a machinery problem
+            ctx.violation("%s.base-run:%s" % (proto, res[0]["sig"]), "%s: %s" % (name, res[0].get("msg", "")[-700:]), prog,
+                          {"subcmd": "record-" + proto})
+            ctx.evaluations += 1
+            continue
+        K = res[0].get("boundaries", 0) if res else 0
         if K < 5:
             raise Machinery("base scenario %s did not run (K=%s): %s" % (name, K, res))
         combos = [(k, o, w) for k in range(1, K + 1) for o in objs for w in whats] + [(k, "", "throw") for k in range(1, K + 1)]
@@ -1280,8 +1318,9 @@ def fault_enum(ctx, owner):
                 ctx.nontrivial.add((m[0], m[2], m[3], m[1] * 8 // max(1, ctx.notes["boundaries"][m[0]])))
                 continue
             sig = "%s.%s(%s,%s)" % (proto, r["sig"], m[3], m[2])
-            own = "C12"
-            if own == owner:
+            # a crash / sanitizer report is both a memory-safety matter (C12) and a handler invoked through a
+            # dangling or released reference (C04)
+            if True:
                 ctx.violation(sig, "%s at boundary %d: %s" % (m[0], m[1], r.get("msg", "")[-700:]), progs[proto][r["i"]],
                               {"subcmd": "record-" + proto})
         traces = [c + ".trace" for c in chunks if os.path.exists(c + ".trace")]
@@ -1318,6 +1357,18 @@ def c12(ctx):
     ctx.assumptions = ["memory safety itself is decided by the sanitizers, not by TLC (DESIGN.md section 9)",
                        "objects an outstanding operation merely refers to stay alive, as asio requires"]
     fault_enum(ctx, "C12")
+    # timers and resolvers: cancel / destroy at every boundary is what the SimCore and Resolver corpora do
+    f1 = ctx.path("beh_sim.ndjson")
+    vlib.tlc_gen(ctx, "GenSimCore.tla", "Gen_SimCore_sim.cfg", f1, simulate=(600 if ctx.tier == "quick" else 8000, 300))
+    res, total = vlib.replay(ctx, "replay-simcore", f1)
+    for r in res:
+        if not r.get("ok") and not r["sig"].startswith(("crash", "timeout", "livelock")):
+            r["ok"] = True
+    vlib.judge_replay(ctx, res, f1, total, sample=False)
+    f2 = ctx.path("rs_rand.ndjson")
+    rand_resolver_programs(ctx.seed, 1500 if ctx.tier == "quick" else 30000, f2)
+    res, total = vlib.replay(ctx, "record-resolver", f2)
+    vlib.judge_replay(ctx, res, f2, total, sample=False)
 
 
 @check("C04", "fault_enumeration")
@@ -1332,13 +1383,15 @@ def c04(ctx):
                        "result is accepted, exactly once"]
     fault_enum(ctx, "C04")
     # timers: inline / nested / order signatures of the SimCore corpus
-    f1 = ctx.path("beh_bfs.ndjson")
-    vlib.tlc_gen(ctx, "GenSimCore.tla", "Gen_SimCore_q.cfg", f1)
-    res, total = vlib.replay(ctx, "replay-simcore", f1)
-    for r in res:
-        if not r.get("ok") and not (r["sig"].startswith(("inline", "nested")) or "exec.ec" in r["sig"] or "exec.unexpected" in r["sig"]):
-            r["ok"] = True
-    vlib.judge_replay(ctx, res, f1, total, sample=False)
+    for cfg, sim in (("Gen_SimCore_q.cfg", None), ("Gen_SimCore_sim.cfg", (800 if ctx.tier == "quick" else 10000, 300))):
+        f1 = ctx.path("beh_%s.ndjson" % ("sim" if sim else "bfs"))
+        vlib.tlc_gen(ctx, "GenSimCore.tla", cfg, f1, simulate=sim)
+        res, total = vlib.replay(ctx, "replay-simcore", f1)
+        for r in res:
+            if not r.get("ok") and not (r["sig"].startswith(("inline", "nested", "crash", "timeout")) or "exec.ec" in r["sig"]
+                                        or "exec.unexpected" in r["sig"] or r["sig"] == "end.early/wait"):
+                r["ok"] = True
+        vlib.judge_replay(ctx, res, f1, total, sample=False)
 
 
 # ---------------------------------------------------------------------------
@@ -1528,3 +1581,60 @@ def c19(ctx):
                     ln = ln[:10] + ["..."] + ln[max(0, rj["at"] - 100):rj["at"] + 3]
                 ctx.violation(sig, "capture rejected at event %d: %s | %s" % (rj["at"], rj["event"][:300], rj.get("state")),
                               {"trace": ln}, {"kind": "trace", "module": "TracePcap.tla"})
+
+
+# ---------------------------------------------------------------------------
+# C15: HTTP request parser
+
+@check("C15", "model_checking")
+def c15(ctx):
+    import random
+    q = ctx.tier == "quick"
+    ctx.rule = ("(a) every well-formed request of the grammar in HttpParse.tla (3 methods x targets of <= 3 segments from "
+                "{a, .., empty, b.c} with/without leading slash and 3 query forms x <= 2 header lines from 5 forms with case and "
+                "whitespace variants and duplicates) with the result the statement demands, computed by the specification; "
+                "(b) every string over {SP, ':', CR, LF, '/', 'a'} up to length 6 (7 in the thorough tier) with FindLen from the "
+                "specification; (c) every prefix of a sample of the well-formed requests and random mutations; each input is "
+                "parsed in an exactly sized heap block under ASan and again flush against a PROT_NONE page; non-trivial = "
+                "well-formed request with a '..' segment or a duplicate header, or a string containing CR LF; distinct by input")
+    ctx.assumptions = ["the grammar bounds above; longer inputs only through prefixes/mutations",
+                       "over-reads are decided by AddressSanitizer red zones and a guard page, not by TLC"]
+    f1 = ctx.path("hp_wf.ndjson")
+    vlib.tlc_gen(ctx, "HttpParse.tla", "Gen_HttpParse_wf.cfg", f1, timeout=900)
+    f2 = ctx.path("hp_str.ndjson")
+    vlib.tlc_gen(ctx, "HttpParse.tla", "Gen_HttpParse_str.cfg" if q else "Gen_HttpParse_str_t.cfg", f2, timeout=1500)
+    rng = random.Random(ctx.seed)
+    f3 = ctx.path("hp_mut.ndjson")
+    wf = [json.loads(l) for k, l in enumerate(open(f1)) if k % 211 == 0]
+    with open(f3, "w") as f:
+        for it in wf:
+            b = it["bytes"]
+            for n in range(len(b) + 1):
+                s = b[:n]
+                f.write(json.dumps({"kind": "str", "chars": list(s), "findlen": (s.find("\r\n\r\n") + 4) if "\r\n\r\n" in s else -1}) + "\n")
+            for _ in range(20):
+                s = list(b)
+                for _m in range(rng.randint(1, 3)):
+                    pos = rng.randrange(len(s) + 1)
+                    op = rng.random()
+                    if op < 0.4 and s:
+                        del s[min(pos, len(s) - 1)]
+                    elif op < 0.8:
+                        s.insert(pos, rng.choice([" ", ":", "\r", "\n", "\r\n", "/", "..", "?", "\t", "\x01", "\x7f"]))
+                    else:
+                        s = s[:pos]
+                s = "".join(s)
+                f.write(json.dumps({"kind": "str", "chars": list(s), "findlen": (s.find("\r\n\r\n") + 4) if "\r\n\r\n" in s else -1}) + "\n")
+    ctx.exhaustive = True
+    for f in (f1, f2, f3):
+        res, total = vlib.replay(ctx, "replay-http-parse", f, env={"VH_WALL_LIMIT": "900"})
+        vlib.judge_replay(ctx, res, f, total, sample=(f == f1))
+        with open(f) as fh:
+            for line in fh:
+                if ('"kind":"wf"' in line and ('..' in line or line.lower().count('host') >= 3)) or ('"kind":"str"' in line and '\\r' in line and '\\n' in line):
+                    ctx.nontrivial.add(hash(line))
+    ctx.states = max(ctx.states, 1)
+    ctx.transitions = max(ctx.transitions, 1)
+
+
+REPLAYERS["C15"] = "replay-http-parse"
